@@ -1,14 +1,21 @@
 """Registry of the scalar kernels that are regenerated from the Python source on every run (DESIGN.md
 section 1, "T — translator") and tied to the hand-written models by kernel-checked equalities.
 
-    extract()          regenerate lean/Earverif/Gen/Kernels.lean from `common.REPO`
-    obligations(pid)   ("Earverif.Props.Kernels", [fully qualified theorem names]) or None
+    extract()          regenerate lean/Earverif/Gen/Kernels*.lean from `common.REPO`
+    obligations(pid)   (props module of the property's kernel group, [fully qualified theorem names]) or None
     ALL                [(pid, python file, qualname, lean def name, [theorem names])]
-    status()           per-theorem result of elaborating Props/Kernels.lean (isolates which kernel broke)
+    status()           per-theorem result of elaborating the Props/Kernels*.lean files (isolates which kernel broke)
 
-`Gen/Kernels.lean` holds one `def Earverif.Gen.<name>` per kernel, translated by `harness/translate.py`
+The kernels are kept in GROUPS, one generated module + one hand-written proof module each, so that a property's check
+only builds (and only depends on the models of) its own group:
+    Kernels      Gen/Kernels.lean     Props/Kernels.lean      rendering / bw64 / timing kernels (C01..C05, C09..C13, C15..C20)
+    KernelsSel   Gen/KernelsSel.lean  Props/KernelsSel.lean   item selection: select_items/*.py (C06, C07, C14)
+    KernelsAdm   Gen/KernelsAdm.lean  Props/KernelsAdm.lean   fileio/adm: time_format.py, generate_ids.py (C08)
+All kernels of one property are in one group.
+
+`Gen/Kernels*.lean` hold one `def Earverif.Gen.<name>` per kernel, translated by `harness/translate.py`
 from the function's AST, with the SHA-256 of the function's source text in a comment above it.
-`Props/Kernels.lean` (hand-written) proves `Gen.<name> = <model def>` for each.  An edit of such a
+`Props/Kernels*.lean` (hand-written) prove `Gen.<name> = <model def>` for each.  An edit of such a
 function changes the generated text; if the new text is no longer equal to the model the theorem
 breaks, whether or not a test input exposes the difference.  A function that leaves the whitelisted
 subset is *refused*: its def becomes a stub of type `Refused` (the reason is in the file) and the
@@ -24,7 +31,7 @@ import subprocess
 from . import common
 from .translate import KernelSpec, Optional_, Refuse, function_source, translate
 
-GEN_PATH_REL = os.path.join("Earverif", "Gen", "Kernels.lean")
+GEN_PATH_REL = os.path.join("Earverif", "Gen", "Kernels.lean")  # (group "Kernels"; see GROUPS)
 PROPS_MODULE = "Earverif.Props.Kernels"
 THM_NS = "Earverif.Kernels."
 
@@ -33,10 +40,10 @@ class Kernel:
     """`pid`: property id or tuple of ids the kernel belongs to; `theorems`: the obligations (helper lemmas that the
     equality rests on are listed too, so that a broken helper is reported against this kernel)."""
 
-    def __init__(self, pid, spec, theorems):
+    def __init__(self, pid, spec, theorems, group="Kernels"):
         self.pids = (pid,) if isinstance(pid, str) else tuple(pid)
         self.pid = "/".join(self.pids)
-        self.spec, self.theorems = spec, list(theorems)
+        self.spec, self.theorems, self.group = spec, list(theorems), group
 
     @property
     def lean_name(self):
@@ -342,6 +349,254 @@ KERNELS += [
         ["zone_polar_test_eq_model"]),
 ]
 
+# ---- round 3: fileio/adm (C08) and item selection (C06, C07, C14); separate groups (generated + proof module each) ----
+# Strings are `List Char` through Model/C08Digits.lean; objects of the ADM graph are identity tokens (`Nat`) or the
+# models' structures; `raise AdmError(...)` is the model's error kind (the message text is not translated).
+_N0 = len(KERNELS)
+_TFM = "ear/fileio/adm/time_format.py"
+_GI = "ear/fileio/adm/generate_ids.py"
+
+
+# ---------------- C08: time_format
+KERNELS += [
+    Kernel("C08", KernelSpec(
+        _TFM, "_unparse_whole_part", "unparse_whole_part", "(seconds : Nat)", "List Char", strings=True,
+        names={"seconds": ("seconds", "nat")},
+        notes="f-string through the Digits model ({x:02d} = decPad 2 x)"), ["unparse_whole_part_eq_model"]),
+    Kernel("C08", KernelSpec(
+        _TFM, "_unparse_fractional", "unparse_fractional_fmt", "(whole_part : List Char) (numerator denominator : Nat)",
+        "List Char", strings=True,
+        names={"whole_part": ("whole_part", "str"), "numerator": ("numerator", "nat"), "denominator": ("denominator", "nat")},
+        select=dict(value_of="return "),
+        notes="the returned f-string; whole_part, numerator, denominator as computed before it"),
+        ["unparse_fractional_fmt_eq_model"]),
+    Kernel("C08", KernelSpec(
+        _TFM, "parse_time", "parse_time_frac", "(hour minute whole_s num den : Nat)", "Option (Rat × Nat)",
+        names={"hour": ("hour", "nat"), "minute": ("minute", "nat")},
+        exprs={"int(match.group('num'))": ("num", "nat"), "int(match.group('den'))": ("den", "nat"),
+               "int(match.group('whole_s'))": ("whole_s", "nat")},
+        ctors={("FractionalTime.from_fraction", 2): "({0}, {1})"}, ret_mode="option",
+        select=dict(range=("numerator = int(", None)),  outputs=[],
+        notes="range: the fractional branch after the regular expression (int(match.group(..)) are the parameters); "
+              "result = the arguments of FractionalTime.from_fraction; none = the ValueError"),
+        ["parse_time_frac_value", "parse_time_frac_eq_model"]),
+    Kernel("C08", KernelSpec(
+        _TFM, "parse_time", "parse_time_dec", "(hour minute : Nat) (second : Rat)", "Rat",
+        names={"hour": ("hour", "nat"), "minute": ("minute", "nat"), "second": ("second", "rat")},
+        select=dict(value_of="re:return (?!FractionalTime)"),
+        notes="the decimal branch: hh:mm:ss composition with second = Fraction(<ss.ddd>)"),
+        ["parse_time_dec_eq_model"]),
+    Kernel("C08", KernelSpec(
+        _TFM, "FractionalTime.from_fraction", "from_fraction", "(fraction : Rat) (format_denominator : Nat)", "Rat × Nat",
+        names={"fraction": ("fraction", "rat"), "format_denominator": ("format_denominator", "nat")},
+        ctors={("cls", 2): "({0}, {1})"},
+        notes="the arguments of cls(...): (numerator, denominator) of the non-normalised fraction"),
+        ["from_fraction_eq_model"]),
+]
+
+# ---------------- C08: generate_ids formats and counters
+_IDS = [  # lean name, statement prefix, binders, exprs, model term
+    ("id_apr", "re:element\\.id = f?'APR_", "(id : Nat)", {}),
+    ("id_aco", "re:element\\.id = f?'ACO_", "(id : Nat)", {}),
+    ("id_ao", "re:element\\.id = f?'AO_", "(id : Nat)", {}),
+    ("id_avs", "re:avs\\.id = f?'AVS_", "(id avs_id : Nat)", {}),
+    ("id_ap", "re:element\\.id = f?'AP_", "(type id : Nat)", {"element.type.value": ("type", "nat")}),
+    ("id_ac", "re:element\\.id = f?'AC_", "(type id : Nat)", {"element.type.value": ("type", "nat")}),
+    ("id_ab", "re:block\\.id = f?'AB_", "(type id block_id : Nat)", {"element.type.value": ("type", "nat")}),
+    ("id_as", "re:element\\.id = f?'AS_", "(type_id id : Nat)", {}),
+    ("id_at", "re:element\\.id = f?'AT_", "(type_id id track_id : Nat)", {}),
+    ("id_atu", "re:element\\.id = f?'ATU_", "(id : Nat)", {}),
+]
+for ln, pre, binders, ex in _IDS:
+    nm = {n: (n, "nat") for n in ("id", "avs_id", "block_id", "type_id", "track_id")}
+    KERNELS.append(Kernel("C08", KernelSpec(
+        _GI, "generate_ids", ln, binders, "List Char", strings=True, names=nm, exprs=ex, select=dict(value_of=pre),
+        notes="the right-hand side of the statement matching `%s`: str.format through the Digits model ({x:04X} = hexPad 4 x)" % pre[3:]),
+        [ln + "_eq_model"]))
+_STARTS = [  # lean name, `for` statement prefix
+    ("ids_start_apr", "for id, element in enumerate(adm.audioProgrammes"),
+    ("ids_start_aco", "for id, element in enumerate(adm.audioContents"),
+    ("ids_start_ao", "for id, element in enumerate(adm.audioObjects"),
+    ("ids_start_avs", "for avs_id, avs in enumerate("),
+    ("ids_start_ap", "for id, element in enumerate(non_common(adm.audioPackFormats)"),
+    ("ids_start_ac", "for id, element in enumerate(non_common(adm.audioChannelFormats)"),
+    ("ids_start_ab", "for block_id, block in enumerate("),
+    ("ids_start_as", "for id, element in enumerate(non_common(adm.audioStreamFormats)"),
+    ("ids_start_at", "for track_id, element in enumerate("),
+    ("ids_start_atu", "for id, element in enumerate(adm.audioTrackUIDs"),
+]
+for ln, pre in _STARTS:
+    KERNELS.append(Kernel("C08", KernelSpec(
+        _GI, "generate_ids", ln, "", "Nat", select=dict(value_of=pre, arg_of="enumerate", arg_index=1),
+        ret_wrap={}, notes="the start value of `%s, <start>)`" % pre), [ln + "_eq_model"]))
+
+for _k in KERNELS[_N0:]:
+    _k.group = "KernelsAdm"
+
+_N0 = len(KERNELS)
+# ---------------- C07: pack_allocation
+_PA = "ear/core/select_items/pack_allocation.py"
+_SU = "ear/core/select_items/utils.py"
+_IN_BY_ID = {"in_by_id": dict(lean="Earverif.Gen.in_by_id", args=["id", "list:id"], ret="bool")}
+_PA_NS = "Earverif.PackAlloc."
+KERNELS += [
+    Kernel(("C07", "C06", "C14"), KernelSpec(
+        _SU, "in_by_id", "in_by_id", "(element : Nat) (collection : List Nat)", "Bool",
+        names={"element": ("element", "id"), "collection": ("collection", "list:id")},
+        notes="objects are identity tokens (Nat), `is` is equality of tokens"), ["in_by_id_eq_model"]),
+    Kernel("C07", KernelSpec(
+        _PA, "_is_compatible", "is_compatible", "(track : %sTrackRef) (c : %sChannel)" % (_PA_NS, _PA_NS), "Bool",
+        optionals=[Optional_("track", "track", "t", {"track.channel_format": ("t.cf", "id"), "track.pack_format": ("t.pf", "id")})],
+        exprs={"alloc_channel.channel_format": ("c.cf", "id"), "alloc_channel.pack_formats": ("c.pfs", "list:id")},
+        calls=_IN_BY_ID, notes="in_by_id is the translated kernel Gen.in_by_id"), ["is_compatible_eq_model"]),
+    Kernel("C07", KernelSpec(
+        _PA, "_allocate_packs_impl.could_possibly_allocate", "could_possibly_allocate",
+        "(tracks : List %sTrackRef) (refs : Option (List Nat)) (remaining : Nat) (p : %sPack)" % (_PA_NS, _PA_NS), "Bool",
+        names={"tracks": ("tracks", "list:obj:TrackRef"), "remaining_in_partial": ("remaining", "nat")},
+        exprs={"pack.channels": ("p.channels", "list:obj:Channel"), "pack.root_pack": ("p.root", "id")},
+        optionals=[Optional_("pack_refs", "refs", "r", {"pack_refs": ("r", "list:id")})],
+        calls=dict(_IN_BY_ID, _is_compatible=dict(lean="Earverif.Gen.is_compatible", args=["obj:TrackRef", "obj:Channel"], ret="bool")),
+        local_kinds={"n_found": "nat"},
+        notes="nested function; closes over tracks, pack_refs, remaining_in_partial (parameters here); the counting loop is a "
+              "left fold; `len(tracks) - remaining_in_partial` is an Int subtraction (the model's is truncated: see the theorem)"),
+        ["could_possibly_allocate_count", "could_possibly_allocate_eq_model"]),
+    Kernel("C07", KernelSpec(
+        _PA, "_allocate_packs_impl", "fail_early_test", "(tracks : List %sTrackRef) (remaining : Nat)" % _PA_NS, "Bool",
+        names={"tracks": ("tracks", "list:obj:TrackRef"), "remaining_in_partial": ("remaining", "nat")},
+        select=dict(value_of="re:if .*remaining_in_partial"),
+        notes="the test of `if len(tracks) < remaining_in_partial: return`"), ["fail_early_test_eq_model"]),
+]
+
+# ---------------- C14: validate.py / matrix.py
+_VA = "ear/core/select_items/validate.py"
+_MX = "ear/core/select_items/matrix.py"
+_V = "Earverif.Validate."
+_AV = "Earverif.AdmV."
+
+
+def _adm(k):
+    return "(%sErr.adm %sAdmKind.%s [])" % (_V, _V, k)  # the message (second field) is not translated: see `strip`
+
+
+_TDEF = {"TypeDefinition.%s" % py: ("%sTypeDef.%s" % (_AV, ln), "tdef")
+         for py, ln in (("HOA", "hoa"), ("Objects", "objects"), ("Matrix", "matrix"), ("DirectSpeakers", "directSpeakers"),
+                        ("Binaural", "binaural"))}
+_FREQ = "{0}.frequency.lowPass is not None or {0}.frequency.highPass is not None"
+_RU = _V + "R Unit"
+KERNELS += [
+    Kernel(("C14", "C06"), KernelSpec(
+        _MX, "type_of", "matrix_type_of", "(input output : Option Nat)", "%sR %sMType" % (_V, _V), ret_mode="except",
+        exprs={"apf.inputPackFormat": ("input", "option:id"), "apf.outputPackFormat": ("output", "option:id"),
+               "Type.DIRECT": (_V + "MType.direct", "mtype"), "Type.ENCODE": (_V + "MType.encode", "mtype"),
+               "Type.DECODE": (_V + "MType.decode", "mtype")},
+        raises=[("assert False", "(%sErr.internal %sIntKind.assert)" % (_V, _V))],
+        notes="ret_mode except: `assert False` is the model's internal assert error; tied to Validate.typeOf (C14) and to the "
+              "branch structure of SelectItems.wrapMatrix (C06)"), ["matrix_type_of_eq_model", "matrix_type_of_wrap_eq_model"]),
+    Kernel("C14", KernelSpec(
+        _VA, "_validate_non_matrix_pack", "validate_non_matrix_pack", "(p : %sPack)" % _AV, _RU, ret_mode="except", outputs=[],
+        exprs={"apf.inputPackFormat": ("p.input", "option:id"), "apf.outputPackFormat": ("p.output", "option:id"),
+               "apf.encodePackFormats": ("p.encodePacks", "list:id")},
+        raises=[("has inputPackFormat reference", _adm("nmxinput")), ("has outputPackFormat reference", _adm("nmxoutput")),
+                ("has encodePackFormat references", _adm("nmxencode"))]), ["validate_non_matrix_pack_eq_model"]),
+    Kernel("C14", KernelSpec(
+        _VA, "_validate_track_uid_track_or_channel_ref", "validate_track_or_channel", "(d : %sDoc)" % _AV, _RU,
+        ret_mode="except", outputs=[], for_each=_V + "forE",
+        exprs={"adm.audioTrackUIDs": ("d.trackUIDs", "list:obj:TrackUID"), "atu.audioTrackFormat": ("atu.trackFormat", "option:id"),
+               "atu.audioChannelFormat": ("atu.channel", "option:id")},
+        raises=[("is not linked to an audioTrackFormat or audioChannelFormat", _adm("tracknone")),
+                ("is linked to both", _adm("trackboth"))]), ["forEI_strip", "validate_track_or_channel_eq_model"]),
+    Kernel("C14", KernelSpec(
+        _VA, "_validate_hoa_channels", "validate_hoa_channels", "(d : %sDoc)" % _AV, _RU,
+        ret_mode="except", outputs=[], for_each=_V + "forE", eq_kinds=("tdef",),
+        exprs=dict(_TDEF, **{"adm.audioChannelFormats": ("d.channels", "list:obj:Channel"),
+                             "audioChannelFormat.type": ("audioChannelFormat.type", "tdef"),
+                             "audioChannelFormat.audioBlockFormats": ("audioChannelFormat.blocks", "list:obj:Block"),
+                             _FREQ.format("audioChannelFormat"): ("audioChannelFormat.freq", "bool")}),
+        raises=[("must have exactly one block format", _adm("hoablocks")), ("must not have frequency information", _adm("hoafreq"))],
+        notes="the model's Channel.freq is the whole test `frequency.lowPass is not None or frequency.highPass is not None`"),
+        ["forEI_strip", "validate_hoa_channels_eq_model"]),
+    Kernel("C14", KernelSpec(
+        _VA, "_validate_objects_channels", "validate_objects_channels", "(d : %sDoc)" % _AV, _RU,
+        ret_mode="except", outputs=[], for_each=_V + "forE", eq_kinds=("tdef",),
+        exprs=dict(_TDEF, **{"adm.audioChannelFormats": ("d.channels", "list:obj:Channel"),
+                             "audioChannelFormat.type": ("audioChannelFormat.type", "tdef"),
+                             "audioChannelFormat.audioBlockFormats": ("audioChannelFormat.blocks", "list:obj:Block"),
+                             _FREQ.format("audioChannelFormat"): ("audioChannelFormat.freq", "bool"),
+                             "audioBlockFormat.cartesian != isinstance(audioBlockFormat.position, ObjectCartesianPosition)":
+                                 ("audioBlockFormat.cartMismatch", "bool")}),
+        raises=[("must not have frequency information", _adm("objfreq")), ("mismatch between cartesian element", _adm("cartesian"))],
+        notes="Channel.freq / Block.cartMismatch are the whole tests (see Model/AdmV.lean)"), ["forEI_strip", "validate_objects_channels_eq_model"]),
+    Kernel("C14", KernelSpec(
+        _VA, "_validate_pack_channel_types", "validate_pack_channel_types", "(d : %sDoc)" % _AV, _RU,
+        ret_mode="except", outputs=[], for_each=_V + "forE", eq_kinds=("tdef",),
+        exprs={"adm.audioPackFormats": ("d.packs", "list:obj:Pack"), "audioPackFormat.audioChannelFormats": ("audioPackFormat.channels", "list:id"),
+               "audioChannelFormat.type": ("(d.chan audioChannelFormat).type", "tdef"), "audioPackFormat.type": ("audioPackFormat.type", "tdef")},
+        raises=[("but contains", _adm("packchtype"))],
+        notes="references are indices in the model: audioChannelFormat.type is (d.chan i).type"), ["forE_strip", "forEI_strip", "validate_pack_channel_types_eq_model"]),
+    Kernel("C14", KernelSpec(
+        _VA, "_validate_pack_subpack_types", "validate_pack_subpack_types", "(d : %sDoc)" % _AV, _RU,
+        ret_mode="except", outputs=[], for_each=_V + "forE", eq_kinds=("tdef",),
+        exprs={"adm.audioPackFormats": ("d.packs", "list:obj:Pack"), "audioPackFormat.audioPackFormats": ("audioPackFormat.packs", "list:id"),
+               "sub_audioPackFormat.type": ("(d.pack sub_audioPackFormat).type", "tdef"), "audioPackFormat.type": ("audioPackFormat.type", "tdef")},
+        raises=[("but contains", _adm("subpacktype"))]), ["forE_strip", "forEI_strip", "validate_pack_subpack_types_eq_model"]),
+    Kernel("C14", KernelSpec(
+        _VA, "_validate_track_channel_ref_only_in_v2", "validate_v2_refs", "(d : %sDoc)" % _AV, _RU,
+        ret_mode="except", outputs=[],
+        exprs={"adm.version is None or version_at_least(adm.version, 2)": ("d.v2Allowed", "bool"),
+               "adm.audioTrackUIDs": ("d.trackUIDs", "list:obj:TrackUID"), "atu.audioChannelFormat": ("atu.channel", "option:id")},
+        raises=[("are not valid before BS.2076-2", _adm("v2ref"))],
+        notes="Doc.v2Allowed is the whole right-hand side of `v2_allowed = ...`"), ["validate_v2_refs_eq_model"]),
+    Kernel("C14", KernelSpec(
+        _VA, "_validate_matrix_channel", "matrix_channel_blocks_test", "(c : %sChannel)" % _AV, "Bool",
+        exprs={"acf.audioBlockFormats": ("c.blocks", "list:obj:Block")}, select=dict(value_of="re:if .*len\\(acf\\.audioBlockFormats\\)"),
+        notes="the test of `if len(acf.audioBlockFormats) != 1:`"), ["matrix_channel_blocks_test_eq_model"]),
+    Kernel("C14", KernelSpec(
+        _VA, "validate_selected_audioTrackUID", "selected_track_checks", "(u : %sTrackUID)" % _AV, _RU, ret_mode="except", outputs=[],
+        exprs={"audioTrackUID.trackIndex": ("u.trackIndex", "option:nat"), "audioTrackUID.audioPackFormat": ("u.pack", "option:id")},
+        select=dict(range=("re:if .*audioTrackUID\\.trackIndex", "re:if .*audioTrackUID\\.audioTrackFormat is")),
+        raises=[("does not have a track index", _adm("noindex")), ("does not have an audioPackFormat", _adm("nopack"))],
+        notes="range: the first two checks (track index, pack reference)"), ["selected_track_checks_eq_model"]),
+]
+
+# ---------------- C06: select_items.py / hoa.py
+_SI = "ear/core/select_items/select_items.py"
+_HO = "ear/core/select_items/hoa.py"
+KERNELS += [
+    Kernel("C06", KernelSpec(
+        _HO, "get_nfcRefDist", "get_nfcRefDist", "(v : Option Rat)", "Option Rat", names={"nfcRefDist": ("v", "option:rat")},
+        select=dict(value_of="return "),
+        notes="the returned conditional; nfcRefDist = the value of _get_pack_param(...) (None or a number)"),
+        ["get_nfcRefDist_eq_model"]),
+    Kernel("C06", KernelSpec(
+        _SI, "_PackAllocator.get_track_spec", "get_track_spec", "(u : Option Nat)", "Earverif.Adm.TSpec",
+        optionals=[Optional_("allocation_track_uid", "u", "ti", {"allocation_track_uid.track_uid.trackIndex": ("ti", "nat")})],
+        ctors={("DirectTrackSpec", 1): "(Earverif.TrackSpec.Spec.direct {0})", ("SilentTrackSpec", 0): "Earverif.TrackSpec.Spec.silent"},
+        notes="u = the track index of the allocated track UID (None: silent)"), ["get_track_spec_eq_model"]),
+    Kernel("C06", KernelSpec(
+        _SI, "_PackAllocator.get_selected_packs_tracks_silent", "silent_tracks", "(tracks : List (Option Nat)) (real : List Nat)", "Int",
+        names={"real_track_uids": ("real", "list:id")}, exprs={"obj.audioTrackUIDs": ("tracks", "list:obj:OptNat")},
+        select=dict(targets=["silent_tracks"], guard=False, inputs=["real_track_uids", "obj"]),
+        notes="slice: silent_tracks = len(obj.audioTrackUIDs) - len(real_track_uids)"), ["silent_tracks_eq_model"]),
+    Kernel("C06", KernelSpec(
+        _SI, "_select_programme", "select_programme", "(ps : List Earverif.Adm.Programme) (given : Option Nat)", "Option Nat",
+        optionals=[Optional_("audio_programme", "given", "p", {"audio_programme": ("(some p)", "option:id")})],
+        exprs={"state.adm.audioProgrammes": ("ps", "list:obj:Programme"),
+               "min(state.adm.audioProgrammes, key=lambda programme: programme.id)": ("(Earverif.Adm.minById ps)", "option:id"),
+               "state.adm.audioProgrammes[0]": ("(some 0)", "option:id"),
+               "in_by_id(audio_programme, state.adm.audioProgrammes)": ("true", "true")},
+        ctors={"evolve": ("kw", "audioProgramme")},
+        notes="value = the audioProgramme field of the returned state (position in adm.audioProgrammes); min(..., key=id) is "
+              "the model's minById, [0] is position 0; the assert is the driver's range check (see the model)"),
+        ["select_programme_eq_model"]),
+    Kernel("C06", KernelSpec(
+        _SI, "_select_only_selected_complementary", "only_selected_test", "(objPath : Option (List Nat)) (ign : List Nat)", "Bool",
+        optionals=[Optional_("state.audioObjects", "objPath", "p", {"state.audioObjects": ("p", "list:id")})],
+        names={"objects_to_ignore": ("ign", "list:id")}, calls=_IN_BY_ID, select=dict(value_of="if state.audioObjects is None or"),
+        notes="the test under which the state is yielded"), ["only_selected_test_eq_model"]),
+]
+for _k in KERNELS[_N0:]:
+    _k.group = "KernelsSel"
+
 # Looked at and not registered: the translator refuses them on the unchanged tree (kept here so that the
 # self-test shows the refusal message).
 NOT_REGISTERED = [
@@ -353,20 +608,46 @@ NOT_REGISTERED = [
      "np.array([1.0 / 16, 4, 32]) and np.sum(..., axis=1): array construction / axis reductions are outside the whitelist "
      "(the model's distW writes the three terms out by hand)"),
     ("C08", KernelSpec("ear/fileio/adm/generate_ids.py", "generate_ids", "generate_ids", "", "Unit"),
-     "for loops over enumerate(..., 0x1001) with str.format and attribute assignment to every element: not a scalar kernel "
-     "(start values and format widths would be a regenerated table, not a translated def)"),
+     "for loops over generator calls with attribute assignment to every element: not a kernel as a whole (its ten format "
+     "expressions and ten counter start values are separate kernels)"),
+    ("C08", KernelSpec("ear/fileio/adm/time_format.py", "FractionalTime.__repr__", "ft_repr", "(n d : Nat)", "List Char", strings=True,
+                       exprs={"self.format_numerator": ("n", "nat"), "self.format_denominator": ("d", "nat")}),
+     "f-string field `{self.__class__.__name__}`: an attribute outside the kernel's map (a string that is not a number "
+     "formatted through the Digits model)"),
+    ("C08", KernelSpec("ear/fileio/adm/time_format.py", "_unparse_decimal", "unparse_decimal", "(time : Rat)", "List Char", strings=True,
+                       names={"time": ("time", "rat")}),
+     "Decimal.as_tuple(), three-way tuple assignment, str.join over a generator: outside the whitelist"),
+    ("C07", KernelSpec("ear/core/select_items/utils.py", "index_by_id", "index_by_id", "(x : Nat) (l : List Nat)", "Option Nat",
+                       names={"element_to_find": ("x", "id"), "collection": ("l", "list:id")}, ret_mode="option"),
+     "`for i, element in enumerate(collection)`: enumerate / a tuple loop target / `return` inside a loop are outside the whitelist"),
+    ("C14", KernelSpec("ear/core/select_items/validate.py", "_find_object_for_avs", "find_object_for_avs", "(a : Nat) (objs : List Nat)",
+                       "Option Nat", names={"avs": ("a", "id"), "objects": ("objs", "list:id")}, ret_mode="option"),
+     "a `for` loop that returns its first match: neither a raising loop of an `except` kernel nor an accumulating fold"),
+    ("C14", KernelSpec("ear/core/select_items/validate.py", "possible_audioTrackUID_errors", "possible_track_errors", "", "Bool",
+                       select=dict(value_of="if not any((pack_channel is track_channel")),
+     "any() over two `for` clauses"),
+    ("C14", KernelSpec("ear/core/select_items/validate.py", "_validate_non_matrix_pack", "validate_non_matrix_pack_unmapped",
+                       "(p : Earverif.AdmV.Pack)", "Earverif.Validate.R Unit", ret_mode="except", outputs=[],
+                       exprs={"apf.inputPackFormat": ("p.input", "option:id"), "apf.outputPackFormat": ("p.output", "option:id"),
+                              "apf.encodePackFormats": ("p.encodePacks", "list:id")},
+                       raises=[("has inputPackFormat reference", "e1"), ("reference", "e2")]),
+     "a `raise` that two (or no) entries of the kernel's `raises` match is refused (the error kind must be unambiguous)"),
+    ("C06", KernelSpec("ear/core/select_items/select_items.py", "_get_alternativeValueSet", "get_avs", "", "Option Nat"),
+     "bare `return`, `continue`, a loop over a tuple display: outside the whitelist"),
 ]
 
 ALL = [(p, k.spec.file, k.spec.qualname, k.spec.lean_name, list(k.theorems)) for k in KERNELS for p in k.pids]
 
-HEADER = """/-
+_GEN_DOC = """/-
 GENERATED on every run by harness/kernels.py (translator: harness/translate.py) from the Python SOURCE of the
 functions named below, read from the repository checkout with `ast`.  DO NOT EDIT; not under version control.
-Each def is what the source says *now*; Props/Kernels.lean proves each equal to the hand-written model def.
+Each def is what the source says *now*; %s proves each equal to the hand-written model def.
 A def of type `Refused` means the function left the translator's whitelist (reason in the comment).
 Floats are exact rationals/reals (as in the models).
 -/
-import Earverif.Model.GainCalc
+"""
+
+HEADER = _GEN_DOC % "Props/Kernels.lean" + """import Earverif.Model.GainCalc
 import Earverif.Model.Bw64Cursor
 import Earverif.Model.Timeline
 import Earverif.Model.Conversion
@@ -387,6 +668,61 @@ inductive Refused where
 def pyTrunc (x : Rat) : Int := if 0 ≤ x then x.floor else -((-x).floor)
 
 """
+
+_HEADER_SEL = _GEN_DOC % "Props/KernelsSel.lean" + """import Earverif.Model.PackAlloc
+import Earverif.Model.Validate
+import Earverif.Model.SelectItems
+set_option linter.unusedVariables false
+namespace Earverif.Gen
+
+/-- Marker type of a kernel the translator refused. -/
+inductive RefusedSel where
+  | refused
+
+"""
+
+_HEADER_ADM = _GEN_DOC % "Props/KernelsAdm.lean" + """import Earverif.Model.TimeFormat
+import Earverif.Model.GenIds
+set_option linter.unusedVariables false
+namespace Earverif.Gen
+
+/-- Marker type of a kernel the translator refused. -/
+inductive RefusedAdm where
+  | refused
+
+"""
+
+# group -> generated file, proof module, header of the generated file, name of the stub type
+GROUPS = {
+    "Kernels": dict(gen=GEN_PATH_REL, props=PROPS_MODULE, header=HEADER, stub="Refused"),
+    "KernelsSel": dict(gen=os.path.join("Earverif", "Gen", "KernelsSel.lean"), props="Earverif.Props.KernelsSel",
+                       header=_HEADER_SEL, stub="RefusedSel"),
+    "KernelsAdm": dict(gen=os.path.join("Earverif", "Gen", "KernelsAdm.lean"), props="Earverif.Props.KernelsAdm",
+                       header=_HEADER_ADM, stub="RefusedAdm"),
+}
+assert all(k.group in GROUPS for k in KERNELS)
+assert len({k.lean_name for k in KERNELS}) == len(KERNELS), "kernel names must be unique across the groups"
+
+
+def group_of(pid):
+    """the group that holds the kernels of property `pid` (None if it has none); one group per property"""
+    gs = sorted({k.group for k in KERNELS if pid in k.pids})
+    assert len(gs) <= 1, "kernels of %s are spread over the groups %s" % (pid, gs)
+    return gs[0] if gs else None
+
+
+assert all(group_of(p) for k in KERNELS for p in k.pids)
+_ACTIVE = None  # the group of the property being checked (set by `obligations`); None = all groups
+
+
+def _groups(groups=None):
+    if groups is not None:
+        return [groups] if isinstance(groups, str) else list(groups)
+    return [_ACTIVE] if _ACTIVE else list(GROUPS)
+
+
+def _props_rel(group):
+    return os.path.join(*GROUPS[group]["props"].split(".")) + ".lean"
 
 
 def _comment_safe(s):
@@ -409,22 +745,25 @@ def _render_one(k, repo):
         sp.file, sp.qualname, k.pid, sha or "unavailable", ("\n   " + _comment_safe(sp.notes)) if sp.notes else "")
     if reason is not None:
         head += "/- REFUSED by the translator: %s -/\n" % _comment_safe(reason)
-        text = "def %s : Refused := .refused\n" % sp.lean_name
+        text = "def %s : %s := .refused\n" % (sp.lean_name, GROUPS[k.group]["stub"])
     return head + text + "\n", reason
 
 
-def render(repo=None, overrides=None):
-    """Whole Gen/Kernels.lean text; `overrides` = {lean_name: reason} forces a stub (used by the type-check pass).
-    Returns (text, {lean_name: refusal reason})."""
+def render(repo=None, overrides=None, group="Kernels"):
+    """Text of one group's generated module; `overrides` = {lean_name: reason} forces a stub (used by the type-check
+    pass).  Returns (text, {lean_name: refusal reason})."""
     repo = repo or common.REPO
-    out, refused = [HEADER], {}
+    g = GROUPS[group]
+    out, refused = [g["header"]], {}
     for k in KERNELS:
+        if k.group != group:
+            continue
         block, reason = _render_one(k, repo)
         if reason is None and overrides and k.lean_name in overrides:
             reason = overrides[k.lean_name]
             sp = k.spec
-            block = "/- %s :: %s   [%s]\n   NOT WELL-TYPED after translation: %s -/\ndef %s : Refused := .refused\n\n" % (
-                sp.file, sp.qualname, k.pid, _comment_safe(reason), sp.lean_name)
+            block = "/- %s :: %s   [%s]\n   NOT WELL-TYPED after translation: %s -/\ndef %s : %s := .refused\n\n" % (
+                sp.file, sp.qualname, k.pid, _comment_safe(reason), sp.lean_name, g["stub"])
         if reason is not None:
             refused[k.lean_name] = reason
         out.append(block)
@@ -476,66 +815,91 @@ def _def_ranges(text, names, keyword="def", loops=False):
     return res
 
 
-def extract(typecheck=True):
-    """Regenerate Gen/Kernels.lean from `common.REPO`.  A kernel whose translation is not well-typed Lean (e.g. the
-    edited function now returns a number where a boolean was returned) is turned into a `Refused` stub as well, so
-    that the generated module always builds and exactly that kernel's theorem breaks."""
-    text, refused = render()
-    allbad = {}
-    if typecheck:
-        for _ in range(3):
-            errs, raw = _lean_errors(None, text)
-            if not errs:  # None (tool unavailable: leave as is, the build will tell) or no errors
-                break
-            ranges = _def_ranges(text, {k.lean_name for k in KERNELS}, loops=True)
-            bad = {}
-            for line, msg in errs:
-                for n, (a, b) in ranges.items():
-                    if a <= line <= b:
-                        n = re.sub(r"_loop\d+$", "", n)  # auxiliary loop defs belong to their kernel
-                        bad.setdefault(n, " ".join(x.strip() for x in msg.split("\n"))[:300])
-            if not bad:
-                break
-            allbad.update(bad)
-            text, refused = render(overrides=allbad)
-    common.write_if_changed(os.path.join(common.LEAN, GEN_PATH_REL), text)
+def extract(typecheck=True, groups=None):
+    """Regenerate the generated modules from `common.REPO` (of the active property's group when called from
+    `run_check`, else of all groups).  A kernel whose translation is not well-typed Lean (e.g. the edited function now
+    returns a number where a boolean was returned) is turned into a stub as well, so that the generated module always
+    builds and exactly that kernel's theorem breaks."""
+    for group in _groups(groups):
+        mine = {k.lean_name for k in KERNELS if k.group == group}
+        text, refused = render(group=group)
+        allbad = {}
+        path = os.path.join(common.LEAN, GROUPS[group]["gen"])
+        try:
+            unchanged = open(path).read() == text
+        except OSError:
+            unchanged = False
+        # the text on disk went through this pass when it was written: only a changed translation is elaborated here
+        # (should a changed *model* make the unchanged text ill-typed, the build of the generated module says so)
+        if typecheck and not unchanged:
+            for _ in range(3):
+                errs, raw = _lean_errors(None, text)
+                if not errs:  # None (tool unavailable: leave as is, the build will tell) or no errors
+                    break
+                ranges = _def_ranges(text, mine, loops=True)
+                bad = {}
+                for line, msg in errs:
+                    for n, (a, b) in ranges.items():
+                        if a <= line <= b:
+                            n = re.sub(r"_loop\d+$", "", n)  # auxiliary loop defs belong to their kernel
+                            bad.setdefault(n, " ".join(x.strip() for x in msg.split("\n"))[:300])
+                if not bad:
+                    break
+                allbad.update(bad)
+                text, refused = render(overrides=allbad, group=group)
+        common.write_if_changed(path, text)
     return None
 
 
-def refusals():
+def refusals(groups=None):
     """{lean def name: reason} for the current `common.REPO` (translator level only)."""
-    return render()[1]
+    out = {}
+    for group in _groups(groups):
+        out.update(render(group=group)[1])
+    return out
 
 
 def obligations(pid):
+    """(proof module of the property's group, theorem names); the following extract()/status() calls of this process
+    are then about that group only."""
+    global _ACTIVE
     th = [THM_NS + t for k in KERNELS if pid in k.pids for t in k.theorems]
-    return (PROPS_MODULE, th) if th else None
-
-
-def status():
-    """Elaborate Props/Kernels.lean against the built Gen/Kernels (build `Earverif.Gen.Kernels` first) and report
-    per theorem: {theorem name (short and fully qualified): None if it checks, else first error line}.  Unlike a failed `lake build` this
-    says which kernels' equalities broke and which still hold.  Returns None if the file could not be elaborated."""
-    rel = os.path.join("Earverif", "Props", "Kernels.lean")
-    errs, raw = _lean_errors(rel)
-    if errs is None:
+    th = list(dict.fromkeys(th))
+    if not th:
         return None
-    text = open(os.path.join(common.LEAN, rel)).read()
-    names = {t for k in KERNELS for t in k.theorems}
-    ranges = _def_ranges(text, names, keyword="theorem|def|lemma|example")
-    res = {n: None for n in names}
-    for n in names:
-        if n not in ranges:
-            res[n] = "theorem missing from Props/Kernels.lean"
-    for line, msg in errs:
-        owner = None
-        for n, (a, b) in ranges.items():
-            if a <= line <= b:
-                owner = n
-        if owner is None:
-            owner = "<outside the registered theorems, line %d>" % line
-        if res.get(owner) is None:
-            res[owner] = msg.split("\n")[0][:300]
+    _ACTIVE = group_of(pid)
+    return (GROUPS[_ACTIVE]["props"], th)
+
+
+def status(groups=None):
+    """Elaborate the proof modules against the built generated modules (build `Earverif.Gen.Kernels*` first) and report
+    per theorem: {theorem name (short and fully qualified): None if it checks, else first error line}.  Unlike a failed
+    `lake build` this says which kernels' equalities broke and which still hold.  Returns None if a file could not be
+    elaborated."""
+    res = {}
+    for group in _groups(groups):
+        rel = _props_rel(group)
+        errs, raw = _lean_errors(rel)
+        if errs is None:
+            return None
+        text = open(os.path.join(common.LEAN, rel)).read()
+        names = {t for k in KERNELS if k.group == group for t in k.theorems}
+        ranges = _def_ranges(text, names, keyword="theorem|def|lemma|example")
+        for n in names:
+            res[n] = None if n in ranges else "theorem missing from %s" % rel
+        for line, msg in errs:
+            owner = None
+            for n, (a, b) in ranges.items():
+                if a <= line <= b:
+                    owner = n
+            if owner is None:
+                # an import / helper definition failed: nothing after it was checked as stated
+                for n, (a, b) in ranges.items():
+                    if a > line and res.get(n) is None:
+                        res[n] = "not checked: %s line %d failed: %s" % (rel, line, msg.split("\n")[0][:200])
+                owner = "<outside the registered theorems, %s line %d>" % (rel, line)
+            if res.get(owner) is None:
+                res[owner] = msg.split("\n")[0][:300]
     # keys: the short theorem names and the fully qualified ones (what `obligations` returns)
     for n in list(res):
         if not n.startswith("<"):
@@ -543,29 +907,35 @@ def status():
     return res
 
 
-def check():
+def check(groups=None):
     """extract + build + per-theorem status, as a dict (used by tools/kernels_selftest.py and handy by hand:
-    `EAR_REPO=<checkout> /venv/bin/python -m harness.kernels check`)."""
+    `EAR_REPO=<checkout> /venv/bin/python -m harness.kernels check [group ...]`)."""
     import time
 
+    gs = _groups(groups)
     t0 = time.time()
-    extract()
+    extract(groups=gs)
     t1 = time.time()
-    ok_gen, out_gen = common.lake_build(["Earverif.Gen.Kernels"])
-    ok, out = common.lake_build([PROPS_MODULE])
+    gen_mods = [GROUPS[g]["gen"][:-5].replace(os.sep, ".") for g in gs]
+    ok_gen, out_gen = common.lake_build(gen_mods)
+    ok, out = common.lake_build([GROUPS[g]["props"] for g in gs])
     t2 = time.time()
-    st = status() if ok_gen else None
-    gen_text = open(os.path.join(common.LEAN, GEN_PATH_REL)).read()
-    stubs = sorted(k.lean_name for k in KERNELS if re.search(r"^def %s : Refused" % re.escape(k.lean_name), gen_text, re.M))
+    st = status(groups=gs) if ok_gen else None
+    stubs = []
+    for g in gs:
+        gen_text = open(os.path.join(common.LEAN, GROUPS[g]["gen"])).read()
+        stubs += [k.lean_name for k in KERNELS if k.group == g
+                  and re.search(r"^def %s : %s" % (re.escape(k.lean_name), GROUPS[g]["stub"]), gen_text, re.M)]
     return {
         "repo": common.REPO,
+        "groups": gs,
         "gen_builds": ok_gen,
         "props_build": ok,
         "first_error": None if ok else common._first_error(out),
         "failing": None if st is None else sorted(t for t, e in st.items() if e is not None and not t.startswith(THM_NS)),
         "detail": None if st is None else {t: e for t, e in st.items() if e is not None and not t.startswith(THM_NS)},
-        "refused": refusals(),
-        "stubs": stubs,
+        "refused": refusals(groups=gs),
+        "stubs": sorted(stubs),
         "extract_s": round(t1 - t0, 2),
         "build_s": round(t2 - t1, 2),
     }
@@ -576,11 +946,13 @@ if __name__ == "__main__":
     import sys
 
     if len(sys.argv) > 1 and sys.argv[1] == "print":
-        sys.stdout.write(render()[0])
+        for g in (sys.argv[2:] or list(GROUPS)):
+            sys.stdout.write(render(group=g)[0])
     elif len(sys.argv) > 1 and sys.argv[1] == "check":
-        print(json.dumps(check(), indent=1))
+        print(json.dumps(check(sys.argv[2:] or None), indent=1))
     else:
         extract()
         for n, r in refusals().items():
             print("REFUSED %s: %s" % (n, r))
-        print("wrote", os.path.join(common.LEAN, GEN_PATH_REL))
+        for g in GROUPS:
+            print("wrote", os.path.join(common.LEAN, GROUPS[g]["gen"]))
